@@ -9,7 +9,8 @@ import CorsVerif.Proofs.Accepted
     * with the failure status, no header other than Vary differs from what was there before
       (in particular the middleware adds no Access-Control-* header);
     * in every case, a header other than Vary that the middleware set carries a value list of
-      admissible provenance: `*`, `true`, `*,authorization`, the configured max-age, or a slice
+      admissible provenance: `*`, `true`, the configured max-age, `*,authorization` (only when the configuration
+      allows all request headers and lists Authorization, without credentialed access), or a slice
       of the request itself (first Origin value, first ACRM value, the ACRH lines) — never the
       configured allow-lists.
 -/
@@ -18,7 +19,9 @@ open Gen Serve
 
 /-- The value lists a debug-off preflight response may carry. -/
 def admissible (icfg : ICfg) (r : Req) : List (List Bytes) :=
-  [Facts.headers_WildcardSgl, Facts.headers_TrueSgl, Facts.headers_WildcardAuthSgl, icfg.acma]
+  [Facts.headers_WildcardSgl, Facts.headers_TrueSgl, icfg.acma]
+  -- `*,authorization` only in the documented case: all request headers allowed, Authorization listed too, anonymous access
+  ++ (if icfg.asteriskReqHdrs && !icfg.credentialed && icfg.allowAuthorization then [Facts.headers_WildcardAuthSgl] else [])
   ++ ((r.hdrs.first Facts.headers_Origin).map fun o => [o]).toList
   ++ ((r.hdrs.first Facts.headers_ACRM).map fun m => [m]).toList
   ++ (r.hdrs Facts.headers_ACRH).toList
@@ -84,13 +87,19 @@ theorem acrh_step_ok (dec : Dec) (icfg : ICfg) (r : Req) (b b' : Buf) (hb : BufO
     (h : processACRH dec icfg b r.hdrs false = some b') : BufOK icfg r b' := by
   unfold processACRH at h
   have hW : Facts.headers_WildcardSgl ∈ admissible icfg r := by simp [admissible]
-  have hWA : Facts.headers_WildcardAuthSgl ∈ admissible icfg r := by simp [admissible]
   split at h
   · cases h; exact hb
   · rename_i acrh hacrh
     have hA : acrh ∈ admissible icfg r := by simp [admissible, hacrh]
     split at h
-    · split at h <;> (cases h; first | exact BufOK_put hb _ _ hWA | exact BufOK_put hb _ _ hW)
+    · rename_i hstar
+      split at h
+      · rename_i hauth
+        have hWA : Facts.headers_WildcardAuthSgl ∈ admissible icfg r := by
+          simp only [Bool.and_eq_true, Bool.not_eq_true'] at hstar
+          simp [admissible, hstar.1, hstar.2, hauth]
+        cases h; exact BufOK_put hb _ _ hWA
+      · cases h; exact BufOK_put hb _ _ hW
     · split at h
       · cases h; exact BufOK_put hb _ _ hA
       · simp only [Bool.not_false, if_true] at h
